@@ -24,23 +24,52 @@
 #include <xercesc/framework/Wrapper4InputSource.hpp>
 #include <xercesc/util/XMLEntityResolver.hpp>
 #include <xercesc/util/XMLResourceIdentifier.hpp>
+#include <xercesc/validators/common/Grammar.hpp>
+#include <xercesc/sax2/XMLReaderFactory.hpp>
 #include <memory>
 #include <exception>
 
 using namespace xh;
 
 static std::vector<unsigned char> gExt;
+// multi-document mode of the resolver (extspec "name:spec|name:spec|..."): the document whose name equals the last path
+// component of the requested system id is served, under that name as its system id (so that include / import / redefine
+// cycles between DIFFERENT documents can be built); an unknown name gets an empty entity
+static std::vector<std::pair<std::string, std::vector<unsigned char> > > gMulti;
+static bool gIsMulti = false;
+static void setExt(const std::string& spec) {
+    gMulti.clear();
+    gIsMulti = spec.find(':') != std::string::npos;
+    if (!gIsMulti) { gExt = expandDoc(spec); return; }
+    gExt.clear();
+    size_t i = 0;
+    while (i < spec.size()) {
+        size_t j = spec.find('|', i);
+        if (j == std::string::npos) j = spec.size();
+        std::string sec = spec.substr(i, j - i);
+        size_t c = sec.find(':');
+        if (c != std::string::npos) gMulti.push_back(std::make_pair(sec.substr(0, c), expandDoc(sec.substr(c + 1))));
+        i = j + 1;
+    }
+}
+static InputSource* serve(const XMLCh* sysId) {
+    static const XMLByte none[1] = {0};
+    if (!gIsMulti) return new MemBufInputSource(gExt.empty() ? none : gExt.data(), gExt.size(), "ext", false);
+    std::string id = narrow(sysId);
+    size_t sl = id.find_last_of("/\\");
+    if (sl != std::string::npos) id = id.substr(sl + 1);
+    for (size_t k = 0; k < gMulti.size(); k++)
+        if (gMulti[k].first == id)
+            return new MemBufInputSource(gMulti[k].second.empty() ? none : gMulti[k].second.data(), gMulti[k].second.size(), id.c_str(), false);
+    return new MemBufInputSource(none, 0, id.c_str(), false);
+}
 
 class MemResolver : public EntityResolver, public XMLEntityResolver {
 public:
     // an empty entity is passed as a valid pointer with length 0 (a null pointer would be the caller's misuse)
     static const XMLByte* bytes() { static const XMLByte none[1] = {0}; return gExt.empty() ? none : gExt.data(); }
-    InputSource* resolveEntity(const XMLCh* const, const XMLCh* const) {
-        return new MemBufInputSource(bytes(), gExt.size(), "ext", false);
-    }
-    InputSource* resolveEntity(XMLResourceIdentifier*) {
-        return new MemBufInputSource(bytes(), gExt.size(), "ext", false);
-    }
+    InputSource* resolveEntity(const XMLCh* const, const XMLCh* const systemId) { return serve(systemId); }
+    InputSource* resolveEntity(XMLResourceIdentifier* id) { return serve(id->getSystemId()); }
 };
 
 class CountHandler : public HandlerBase {
@@ -77,15 +106,17 @@ static const XMLCh* scannerName(char c) {
 //   hist  <api> <scanner> <val> <flags> <chunks> <docspec1> <extspec1> <docspec2> <extspec2> ...
 // flag 'c' = cacheGrammarFromParse + useCachedGrammarInParse (grammar reuse across the history)
 struct Docs {
-    std::vector<std::vector<unsigned char> > doc, ext;
+    std::vector<std::vector<unsigned char> > doc;
+    std::vector<std::string> ext;
+    bool load = false;          // "load": the document is a schema handed to loadGrammar
     ChunkSpec chunks;
 };
 
 template <class F> static std::string runDocs(const Docs& d, F parseOne, bool hist) {
     std::string out;
     for (size_t i = 0; i < d.doc.size(); i++) {
-        gExt = d.ext[i];
-        ChunkSource src(d.doc[i], d.chunks, "doc.xml");
+        setExt(d.ext[i]);
+        ChunkSource src(d.doc[i], d.chunks, d.load ? "top.xsd" : "doc.xml");
         std::string r;
         try {
             long n = parseOne(src);
@@ -134,7 +165,8 @@ static std::string doParse(const std::vector<std::string>& a) {
     bool hist = a[0] == "hist";
     Docs d;
     d.chunks = parseChunks(a[5]);
-    for (size_t k = 6; k + 1 < a.size(); k += 2) { d.doc.push_back(expandDoc(a[k])); d.ext.push_back(expandDoc(a[k + 1])); }
+    for (size_t k = 6; k + 1 < a.size(); k += 2) { d.doc.push_back(expandDoc(a[k])); d.ext.push_back(a[k + 1]); }
+    d.load = a[0] == "load";
     MemResolver res;
     if (api == "sax") {
         SAXParser p;
@@ -165,7 +197,7 @@ static std::string doParse(const std::vector<std::string>& a) {
         if (optBuf >= 0) p->setInputBufferSize((XMLSize_t)optBuf);
         if (optLow >= 0) p->setProperty(XMLUni::fgXercesLowWaterMark, &lowV);
         p->setContentHandler(&h); p->setErrorHandler(&h); p->setEntityResolver(&res);
-        return runDocs(d, [&](ChunkSource& src) { h.n = 0; p->parse(src); return h.n; }, hist);
+        return runDocs(d, [&](ChunkSource& src) { h.n = 0; if (d.load) p->loadGrammar(src, Grammar::SchemaGrammarType, cache); else p->parse(src); return h.n; }, hist);
     } else if (api == "dom") {
         XercesDOMParser p;
         CountHandler h;
@@ -179,6 +211,7 @@ static std::string doParse(const std::vector<std::string>& a) {
         p.setErrorHandler(&h); p.setEntityResolver(&res);
         return runDocs(d, [&](ChunkSource& src) {
             h.n = 0;
+            if (d.load) { p.loadGrammar(src, Grammar::SchemaGrammarType, cache); return h.n; }
             p.parse(src);
             if (DOMDocument* doc = p.getDocument()) { if (doc->getDocumentElement()) (void)doc->getDocumentElement()->getTextContent(); }
             return h.n;
@@ -226,7 +259,7 @@ int main() {
     while (std::getline(std::cin, line)) {
         std::vector<std::string> a = splitWs(line);
         std::string r = "bad-request";
-        if (a.size() == 8 && a[0] == "parse") r = doParse(a);
+        if (a.size() == 8 && (a[0] == "parse" || (a[0] == "load" && (a[1] == "sax2" || a[1] == "dom")))) r = doParse(a);
         else if (a.size() >= 8 && a.size() % 2 == 0 && a[0] == "hist") r = doParse(a);
         std::cout << r << std::endl;
     }
